@@ -125,8 +125,23 @@ func runC27(rc *RC) {
 		// more nodes than one group holds: the writer must start a second block by itself
 		at := rc.Draw(len(elems) + 1)
 		var bulk []osm.Element
-		for i := 0; i < 8000+rc.Range(1, 40); i++ {
-			bulk = append(bulk, &osm.Node{ID: osm.NodeID(1000000 + i), Location: osm.LatLng{Lat: 51.5 + float64(i)*1e-6, Lng: -0.1}})
+		bulkKind := rc.Pick(2, 1, 1)
+		for i, m := 0, 8000+rc.Range(1, 40); i < m; i++ {
+			switch bulkKind {
+			case 0:
+				bulk = append(bulk, &osm.Node{ID: osm.NodeID(1000000 + i), Location: osm.LatLng{Lat: 51.5 + float64(i)*1e-6, Lng: -0.1}})
+			case 1:
+				w := &osm.Way{ID: osm.WayID(1000000 + i), Nodes: []osm.NodeID{osm.NodeID(i + 1), osm.NodeID(i + 2)}}
+				if i%1000 == 999 {
+					w.Tags = osm.Tags{{Key: "highway", Value: "primary"}}
+				}
+				bulk = append(bulk, w)
+			default:
+				bulk = append(bulk, &osm.Relation{ID: osm.RelationID(1000000 + i), Members: []osm.Member{
+					{Type: osm.ElementTypeNode, ID: osm.AnyID(i + 1), Role: roles[(i/3)%len(roles)]},
+					{Type: osm.ElementTypeWay, ID: osm.AnyID(i + 7), Role: roles[(i/5)%len(roles)]},
+				}})
+			}
 		}
 		elems = append(elems[:at:at], append(bulk, elems[at:]...)...)
 		rc.Probe("pbf-group-overflow")
